@@ -224,6 +224,20 @@ def files(ctx: Ctx):
     for i, d in enumerate(designs):
         if i % 4 == 2:
             one_base_constant_regions(ctx.rng, d)
+        if i % 4 == 1 and d.get('vcfs'):
+            # the deletion of a complete targeton (anchored on the base before it): its oligonucleotide is empty, the record is still reported
+            import random
+            r2 = random.Random(f'C08-whole-{ctx.seed}-{i}')
+            t = r2.choice(d['targetons'])
+            U = d['ref'].upper()
+            s_, e_ = t['ref_start'], t['ref_end']
+            if s_ >= 3:
+                ref = U[s_ - 2:e_]
+                rec = {'pos': s_ - 1, 'ref': ref if r2.random() < 0.7 else ref.lower(), 'alts': [U[s_ - 2]], 'id': f'whole{s_}', 'kind': 'del'}
+                if d['vcfs'][0].get('id_tag'):
+                    rec['info'] = {d['vcfs'][0]['id_tag']: str(7000 + s_)}
+                d['vcfs'][0]['records'].append(rec)
+                d['vcfs'][0]['records'].sort(key=lambda r: (r.get('contig', d['contig']) != d['contig'], r['pos']))
     exprs, meta = [], []
     for d, r in pool_map(design_case, designs):
         check_design(ctx, d, r, exprs, meta)
